@@ -215,6 +215,7 @@ def kind_of(ix):
 
 
 SCALAR_POOL = None
+SMALL_POOL = [-1, 0, 99, 2.5, 'zz', None, ('q', 'q'), np.datetime64('1999-01-01', 'D')]
 
 
 def scalar_pool():
@@ -226,7 +227,7 @@ def scalar_pool():
     return SCALAR_POOL
 
 
-def probes_for(model, hier, extra=()):
+def probes_for(model, hier, extra=(), small=False):
     """labels to probe for absence; filtered later against Python equality with the held labels"""
     n = len(model)
     out = []
@@ -250,7 +251,7 @@ def probes_for(model, hier, extra=()):
         out.append(('scalar', 'zz'))
         out.append(('scalar', 0))
     else:
-        for p in list(scalar_pool()) + [n, n + 1, -n, -n - 1]:
+        for p in (SMALL_POOL if small else list(scalar_pool())) + [n, n + 1, -n, -n - 1]:
             out.append((pclass(p), p))
     for p in extra:
         out.append((('tuple' if hier else pclass(p)), p))
@@ -260,7 +261,7 @@ def probes_for(model, hier, extra=()):
 # ---------------------------------------------------------------------------------------------
 # the contract
 
-def contract(sink, ix, model, rp, probes=True, extra_probes=(), area=None, group='ctor', onekey=None, onekey_probes=None):
+def contract(sink, ix, model, rp, probes=True, extra_probes=(), area=None, group='ctor', onekey=None, onekey_probes=None, small_probes=False):
     """ix: index under test; model: list of labels (tuples for hierarchies) it must present"""
     import static_frame as sf
     kind = area or kind_of(ix)
@@ -311,6 +312,7 @@ def contract(sink, ix, model, rp, probes=True, extra_probes=(), area=None, group
     seq_check('reversed-order', lambda: list(reversed(ix)), model[::-1])
     seq_check('positions', lambda: ix.positions, list(range(n)))
     seq_check('iloc-order', lambda: [ix.iloc[i] for i in range(n)], model)
+    seq_check('iloc-negative', lambda: [ix.iloc[i - n] for i in range(n)], model)
     if n:
         o = obs(lambda: ix.iloc[n])
         chk(o[0] == 'exc', K('iloc-past-end'), f'iloc[{n}] on an index of {n} labels returned {o[1]!r}', rp)
@@ -346,7 +348,7 @@ def contract(sink, ix, model, rp, probes=True, extra_probes=(), area=None, group
 
     if probes and not state['failed']:  # absence probes only on an index whose order/lookup views are sound
         seen = set()
-        for pc, p in probes_for(model, hier, extra_probes):
+        for pc, p in probes_for(model, hier, extra_probes, small_probes):
             kp = (pc, norm(p), type(p).__name__)
             if kp in seen:
                 continue
@@ -500,7 +502,7 @@ def eval_route(rep, base_kind, route, thunk, expect, rp, may_raise=False, only=N
         return
     rp = dict(rp, route=route)
     group = group or group_of(route)
-    onekey = onekey or ROUTE_ONEKEY.get(route)
+    onekey = onekey or ROUTE_ONEKEY.get(route) or (f'{PID}:ih:tuple-labels-flattened-by-iloc' if group == 'level/tuple-labels' else None)
     o = obs(thunk)
     nontrivial = expect[0] == 'reject' or (len(expect) > 1 and len(expect[1]) > 0)
     rep.count(distinct_key=(tuple(sorted((k, str(v)) for k, v in rp.items())) if nontrivial else None),
@@ -816,7 +818,7 @@ def eval_flat_case(rep, case, only=None):
             eval_route(rep, kind0, 'from_labels', lambda: cls.from_labels(list(labels)), ('model', labels), rp, only=only)
             eval_route(rep, kind0, 'ctor-name', lambda: cls(list(labels), name=('n', 1)), ('model', labels), rp, only=only)
             eval_route(rep, kind0, 'ctor-series-values', lambda: cls(sf.Series(as_array(labels, info['dtype']))), ('model', labels), rp, only=only)
-        if form not in ('list', 'array'):
+        if form not in ('list', 'array') or (form == 'array' and not cls.STATIC):
             return
         o = obs(lambda: cls(in_form(labels, form, info['dtype'])))
         if o[0] == 'exc':
@@ -1109,7 +1111,8 @@ def ih_routes(ih, rows, info, cls, ctors):
     add('iloc-bool', lambda: ih.iloc[np.arange(n) % 2 == 1], H(rows[1::2]))
     if n:
         add('iloc-list-repeat', lambda: ih.iloc[[0, n - 1, 0]], ('reject', 'duplicates'))
-        add('iloc-last-first', lambda: ih.iloc[[n - 1, 0]], H([rows[-1], rows[0]] if n > 1 else None) if n > 1 else ('reject', 'duplicates'))
+        if n > 1:
+            add('iloc-last-first', lambda: ih.iloc[[n - 1, 0]], H([rows[-1], rows[0]]))
         add('loc-list', lambda: ih.loc[[rows[-1], rows[0]]] if n > 1 else ih.loc[[rows[0]]], H([rows[-1], rows[0]]) if n > 1 else ('model', rows[:1]))
         add('loc-slice', lambda: ih.loc[rows[n // 2]:], H(rows[n // 2:]))
         add('loc-hloc-outer', lambda: ih.loc[sf.HLoc[[rows[0][0]]]], H([r for r in rows if eq(r[0], rows[0][0])]))
@@ -1120,7 +1123,6 @@ def ih_routes(ih, rows, info, cls, ctors):
     add('relabel-identity', lambda: ih.relabel(lambda x: tuple(x)), ('model', rows))
     if n:
         add('relabel-dict-fresh', lambda: ih.relabel({rows[-1]: fresh[0]}), H(rows[:-1] + [fresh[0]]))
-        add('relabel-fn-outer-tag', lambda: ih.relabel(lambda x: (('t', x[0]) if False else x[0],) + tuple(x[1:])), ('model', rows))
     if n > 1:
         add('relabel-dict-collide', lambda: ih.relabel({rows[0]: rows[1]}), ('reject', 'duplicates'))
         add('relabel-fn-constant', lambda: ih.relabel(lambda x: fresh[0]), ('reject', 'duplicates'))
@@ -1227,6 +1229,34 @@ def label_status(v, c):
     return st
 
 
+def _pad(pool, n=16):
+    """deterministically lengthen a pool of fresh labels to n entries of the same type"""
+    pool = list(pool)
+    i = 0
+    while len(pool) < n:
+        v = pool[i % len(pool)]
+        i += 1
+        if isinstance(v, bool):
+            new = f'fresh{i}'
+        elif isinstance(v, int):
+            new = 1000 + i
+        elif isinstance(v, float):
+            new = 1000.5 + i
+        elif isinstance(v, str):
+            new = f'{v}{i}'
+        elif isinstance(v, tuple):
+            new = v + (i,)
+        elif isinstance(v, np.datetime64):
+            new = v + np.timedelta64(40 + i, np.datetime_data(v.dtype)[0])
+        elif isinstance(v, D):
+            new = v + datetime.timedelta(days=40 + i)
+        else:
+            new = f'fresh{i}'
+        if not any(py_equal(new, x) for x in pool):
+            pool.append(new)
+    return pool
+
+
 FLAT_BASES = {
     'go-int': dict(cls='IndexGO', labels=[3, 1], fresh=[40, 41, 42, 43, 44, 45, 46, 47], other=['zz', 'yy', 'xx', 'ww', 'vv', 'uu', 'tt', 'ss'], pyeq=3.0),
     'go-str': dict(cls='IndexGO', labels=['a', 'b'], fresh=['p', 'q', 'r', 's', 't', 'u', 'v', 'w'], other=[7, 8, 9, 10, 11, 12, 13, 14], pyeq=None),
@@ -1279,8 +1309,8 @@ def run_flat_history(bid, hist, sink_ops, rp):
     b = FLAT_BASES[bid]
     ix = build_flat_base(bid)
     unit = b.get('unit')
-    fresh = list(typed_fresh(unit)) if unit else list(b['fresh'])
-    other = list(b.get('other', []))
+    fresh = _pad(typed_fresh(unit) if unit else b['fresh'])
+    other = _pad(b.get('other', ['zz']))
     cands = [list(b['labels'])]
     tried = []
     fi = oi = 0
@@ -1288,6 +1318,8 @@ def run_flat_history(bid, hist, sink_ops, rp):
 
     def conv(v):
         return to_unit(v, unit) if unit else v
+
+    hkind = 'auto' if b.get('via') in ('factory', 'framego') else ('dt' if unit else 'plain')
 
     def K(c):
         return f'{PID}:go:history:{c}'
@@ -1365,7 +1397,7 @@ def run_flat_history(bid, hist, sink_ops, rp):
                     new_cands.append(cur)
         if not new_cands:
             if raised:
-                sink_ops.fail(K(f'growth-by-new-label-raises:{type(o[1]).__name__}' + (':after-py-equal-append' if 'Q' in hist[:step] else '')),
+                sink_ops.fail(hist_key(hkind, hist[:step]) if 'Q' in hist[:step] else K(f'growth-by-new-label-raises:{type(o[1]).__name__}'),
                               f'{call}({items!r}) raises {o[1]!r} although no submitted label is held; base {bid}, history {hist[:step + 1]!r}, labels {cands[0]!r}', rp)
             else:
                 sink_ops.fail(K('growth-by-held-label-accepted'),
@@ -1385,7 +1417,7 @@ def check_candidates(rep, ix, cands, rp, extra, group='history', onekey=None, on
     sinks = []
     for c in cands:
         s = Sink()
-        contract(s, ix, c, rp, extra_probes=[p for p in extra if not any(py_equal(p, l) for l in c)], group=group, onekey=onekey, onekey_probes=onekey_probes)
+        contract(s, ix, c, rp, extra_probes=[p for p in extra if not any(py_equal(p, l) for l in c)], group=group, onekey=onekey, onekey_probes=onekey_probes, small_probes=True)
         if not s.failures:
             return True
         sinks.append(s)
@@ -1413,8 +1445,9 @@ def valid_flat_hist(bid, h):
 
 
 def hist_key(kind, hist):
-    return (f'{PID}:{kind}:history:views-disagree-after-growth' + (':py-equal-append' if 'Q' in hist else '')
-            + (':rejected-extend' if 'X' in hist else ''))
+    if 'Q' in hist:  # whatever goes wrong after a Python-equal append (1.0 onto an index holding 1) is one defect class
+        return f'{PID}:{kind}:history:after-py-equal-append'
+    return f'{PID}:{kind}:history:views-disagree-after-growth' + (':rejected-extend' if 'X' in hist else '')
 
 
 def eval_flat_history(rep, bid, hist, count=True):
@@ -1469,6 +1502,7 @@ def run_ih_history(bid, hist, sink_ops, rp):
     cands = [list(b['rows'])]
     tried = []
     oi = li = mi = 0
+    b = dict(b, outer=_pad(b['outer']), leaf=_pad(b['leaf']), mid=_pad(b.get('mid', [60])))
 
     def K(c):
         return f'{PID}:ih:history:{c}'
@@ -1509,7 +1543,9 @@ def run_ih_history(bid, hist, sink_ops, rp):
             inner2 = inner[:-1] + (b['leaf'][li + 1],)
             li += 2
             if op == 'E':
-                ext = [(o1,) + inner, (o1,) + inner2]
+                o2 = b['outer'][oi]
+                oi += 1
+                ext = [(o1,) + inner, (o1,) + inner2, (o2,) + inner]
             else:
                 if not c0:
                     return 'skip'
@@ -1588,40 +1624,40 @@ class Rep(Report):
         return Report.check(self, cond, key, what, dict(replay or {}, key=key))
 
 
-FLAT_OPS_SMALL = 'AQXRN'
-IH_OPS_SMALL = 'LUPXR'
+# (maximal length, alphabet) layers: every history over the alphabet up to that length
+FLAT_LAYERS = {'quick': [(2, FLAT_OPS), (3, 'ANDQXR'), (4, 'AQXR')], 'thorough': [(4, FLAT_OPS), (5, 'AQXRNE')]}
+IH_LAYERS = {'quick': [(2, IH_OPS), (3, 'LUPEXR'), (4, 'LEXR')], 'thorough': [(4, IH_OPS), (5, 'LUPEXR')]}
 
 
 def hist_blocks(tier):
-    full, plen = (3, 1) if tier == 'quick' else (4, 2)
+    plen = 1 if tier == 'quick' else 2
     for bid in FLAT_BASES:
         for prefix in itertools.product(FLAT_OPS, repeat=plen):
-            yield dict(area='hist-block', base=bid, prefix=''.join(prefix), full=full)
+            yield dict(area='hist-block', base=bid, prefix=''.join(prefix), layers=FLAT_LAYERS[tier])
     for bid in IH_BASES:
         for prefix in itertools.product(IH_OPS, repeat=plen):
-            yield dict(area='ih-hist-block', base=bid, prefix=''.join(prefix), full=full)
+            yield dict(area='ih-hist-block', base=bid, prefix=''.join(prefix), layers=IH_LAYERS[tier])
 
 
 def block_histories(case):
     flat = case['area'] == 'hist-block'
-    ops, small = (FLAT_OPS, FLAT_OPS_SMALL) if flat else (IH_OPS, IH_OPS_SMALL)
+    ops = FLAT_OPS if flat else IH_OPS
     valid = valid_flat_hist if flat else valid_ih_hist
-    prefix, full = case['prefix'], case['full']
+    prefix = case['prefix']
     plen = len(prefix)
-    if plen == 2 and prefix[1] == ops[0]:
-        # histories shorter than the prefix length are attached to one block
-        if valid(case['base'], prefix[0]):
-            yield prefix[0]
-    for n in range(plen, full + 1):
-        for rest in itertools.product(ops, repeat=n - plen):
-            h = prefix + ''.join(rest)
-            if valid(case['base'], h):
-                yield h
-    if all(c in small for c in prefix):
-        for rest in itertools.product(small, repeat=full + 1 - plen):
-            h = prefix + ''.join(rest)
-            if valid(case['base'], h):
-                yield h
+    seen = set()
+    if plen == 2 and prefix[1] == ops[0] and valid(case['base'], prefix[0]):
+        seen.add(prefix[0])
+        yield prefix[0]  # histories shorter than the prefix are attached to one block
+    for maxlen, alphabet in case['layers']:
+        if not all(c in alphabet for c in prefix):
+            continue
+        for n in range(plen, maxlen + 1):
+            for rest in itertools.product(alphabet, repeat=n - plen):
+                h = prefix + ''.join(rest)
+                if h not in seen and valid(case['base'], h):
+                    seen.add(h)
+                    yield h
 
 
 def all_cases(tier, parts):
@@ -1669,7 +1705,7 @@ RULE = ('label lists of 12 families (int, str, bool, float incl. one NaN list, t
 def _run(task, parts, name):
     tier = task.get('tier', 'quick')
     bound = ('labels per index <= 5 (+ <= 8 appended); hierarchies depth 2-4 with <= 4 rows; histories of length <= '
-             + ('3 over 9 operations + length 4 over 5 operations' if tier == 'quick' else '4 over 9 operations + length 5 over 5 operations')
+             + ('2 over 9 operations, 3 over 6, 4 over 4' if tier == 'quick' else '4 over 9 operations, 5 over 6')
              + '; 15 flat and 9 hierarchical grow-only bases')
     rep = Rep(name, task, rule=RULE, bound=bound)
     rep.trusted.add('numpy casts (astype) and Python sorted() are used to state the expected labels of astype / sort routes')
